@@ -221,9 +221,9 @@ Definition step1 (fz : option nat) (m : machine) (o : op) : machine * out :=
       | Some (k, s) => let '(e, s') := get_mut keq hash s i u in (setreg m r k s', OutOptE e)
       | None => inv end
   | OLen r =>
-      match getreg m r with Some (_, s) => (m, OutNat (size s)) | None => inv end
+      match getreg m r with Some (_, s) => (m, OutNat (ssize s)) | None => inv end
   | OIsEmpty r =>
-      match getreg m r with Some (_, s) => (m, OutBool (bool_decide (size s = 0))) | None => inv end
+      match getreg m r with Some (_, s) => (m, OutBool (bool_decide (ssize s = 0))) | None => inv end
   | ORetain r f =>
       match getreg m r with
       | Some (k, s) => fin m r k (unitS (s1 ← retain_mut s f; build k s1))
@@ -245,7 +245,7 @@ Definition step1 (fz : option nat) (m : machine) (o : op) : machine * out :=
   | OIter r a script e =>
       match getreg m r with
       | Some (k, s) =>
-          match finish_script dq_it a (map s) script e with
+          match finish_script dq_it a (smap s) script e with
           | Some (Ok (_, outs)) =>
               if script_fault outs then (m, OutFault Panic) else (m, out_script outs)
           | _ => inv
@@ -255,7 +255,7 @@ Definition step1 (fz : option nat) (m : machine) (o : op) : machine * out :=
       (* consumes a clone: the register keeps its queue *)
       match getreg m r with
       | Some (k, s) =>
-          match finish_script dq_it a (map s) script e with
+          match finish_script dq_it a (smap s) script e with
           | Some (Ok (_, outs)) =>
               if script_fault outs then (m, OutFault Panic) else (m, out_script outs)
           | _ => inv
@@ -299,7 +299,7 @@ Definition step1 (fz : option nat) (m : machine) (o : op) : machine * out :=
           | Ok (l, t) => (setreg m r KDPQ (set_ticks s (ticks t)), OutList l) | Unwound _ => (m, OutUnwound) | Fault f => (m, OutFault f) end
       | _, _ => inv end
   | OIntoVec r =>
-      match getreg m r with Some (_, s) => (m, OutList (map s)) | None => inv end
+      match getreg m r with Some (_, s) => (m, OutList (smap s)) | None => inv end
   | OExtend r l h =>
       match getreg m r with
       | Some (KPQ, s) => fin m r KPQ (unitS (pq_extend keq hash ple alloc_limit s l h))
@@ -351,8 +351,8 @@ Definition step1 (fz : option nat) (m : machine) (o : op) : machine * out :=
       match getreg m r with
       | Some (_, s) =>
           (* capacity() >= len(): the only thing every allocator guarantees *)
-          (m, OutBool (bool_decide (N.of_nat (length (map s))
-                                    <= N.max (cap s) (N.of_nat (length (map s))))%N))
+          (m, OutBool (bool_decide (N.of_nat (length (smap s))
+                                    <= N.max (cap s) (N.of_nat (length (smap s))))%N))
       | None => inv end
   | OFuse _ _ => inv
   end.
